@@ -214,6 +214,7 @@ type Exec struct {
 	subs    map[string]*subState
 	subIDs  []string
 	dead    bool
+	cfgs    map[string]bool // databases this case has set up (cfg / addcfg)
 	ext     func(e *Exec, f []string) (string, bool) // extra ops (C03: api, runtime registry)
 	Closers []func()
 }
@@ -652,6 +653,35 @@ func (e *Exec) ShowRec(r record.Record) string {
 	return r.DatabaseKey() + "~" + e.ShowMeta(r.Meta()) + "~" + ShowPayload(r)
 }
 
+// ShowRecUnlocked renders key~meta~payload without taking the record's lock (for code that is called while the
+// caller holds it, such as a value provider's Set).
+func (e *Exec) ShowRecUnlocked(r record.Record) string {
+	return r.DatabaseKey() + "~" + e.ShowMeta(r.Meta()) + "~" + ShowPayload(r)
+}
+
+// CopyRecord returns an independent copy of a harness record (typed struct or wrapper); the caller must make
+// sure nobody writes to r meanwhile.
+func CopyRecord(r record.Record) record.Record {
+	var m *record.Meta
+	if r.Meta() != nil {
+		m = r.Meta().Duplicate()
+	}
+	switch x := r.(type) {
+	case *Rec:
+		c := &Rec{S: x.S, I: x.I, F: x.F, B: x.B, N: x.N, L: append([]string{}, x.L...)}
+		c.SetKey(x.Key())
+		c.SetMeta(m)
+		return c
+	case *record.Wrapper:
+		w, err := record.NewWrapper(x.Key(), m, x.Format, append([]byte{}, x.Data...))
+		if err != nil {
+			panic(err)
+		}
+		return w
+	}
+	panic(fmt.Sprintf("CopyRecord: unknown record type %T", r))
+}
+
 // ErrStr maps errors to the protocol's error enum.
 func ErrStr(err error) string {
 	switch {
@@ -661,7 +691,7 @@ func ErrStr(err error) string {
 		return "notfound"
 	case errors.Is(err, database.ErrPermissionDenied):
 		return "denied"
-	case errors.Is(err, database.ErrNotImplemented):
+	case errors.Is(err, database.ErrNotImplemented), errors.Is(err, storage.ErrNotImplemented):
 		return "notimpl"
 	case errors.Is(err, database.ErrReadOnly):
 		return "readonly"
@@ -916,8 +946,13 @@ func (e *Exec) do(line string) string {
 	if len(f) == 0 {
 		return "bad-op"
 	}
-	if f[0] == "cfg" {
+	if f[0] == "cfg" || f[0] == "addcfg" || f[0] == "usecfg" {
+		// cfg: the case's database (wiped). addcfg: a further database of the same case (wiped; the others keep
+		// their content). usecfg: switch to a database of this case without touching its content.
 		if len(f) != 3 || backendType[f[1]] == "" || (f[2] != "0" && f[2] != "1") {
+			return "bad-op"
+		}
+		if f[0] == "usecfg" && !e.cfgs[f[1]+f[2]] {
 			return "bad-op"
 		}
 		e.backend, e.shadow = f[1], f[2] == "1"
@@ -931,10 +966,41 @@ func (e *Exec) do(line string) string {
 			return ErrStr(err)
 		}
 		e.ctrl = c
-		if err := wipe(name, e.backend, c.VerifStorage()); err != nil {
-			return "wipe-failed:" + ErrStr(err)
+		if f[0] != "usecfg" {
+			if err := wipe(name, e.backend, c.VerifStorage()); err != nil {
+				return "wipe-failed:" + ErrStr(err)
+			}
+		}
+		if e.cfgs == nil {
+			e.cfgs = map[string]bool{}
+		}
+		e.cfgs[f[1]+f[2]] = true
+		return "ok"
+	}
+	switch f[0] {
+	case "waitsec":
+		// waitsec <n>: block until the wall clock shows second T0+n (the clock is polled; the op returns within
+		// about a millisecond of the second's start). "late" if that second is already over.
+		if len(f) != 2 {
+			return "bad-op"
+		}
+		n, err := strconv.ParseInt(f[1], 10, 64)
+		if err != nil || n < 0 || n > 5 {
+			return "bad-op"
+		}
+		for time.Now().Unix() < e.T0+n {
+			time.Sleep(200 * time.Microsecond)
+		}
+		if time.Now().Unix() > e.T0+n {
+			return "late"
 		}
 		return "ok"
+	case "clock":
+		// clock: the wall clock's second relative to the case start, exact
+		if len(f) != 1 {
+			return "bad-op"
+		}
+		return fmt.Sprintf("@+%d", time.Now().Unix()-e.T0)
 	}
 	if e.ext != nil {
 		if out, ok := e.ext(e, f); ok {
